@@ -63,7 +63,7 @@ func VerifH17() {
 	conn := vNewConn(nil)
 	w := buffer.NewWriter(slog.Default(), conn)
 
-	msg := vSymTextL(2, false)
+	msg := vSymTextL(2, true) // the base error's text may be empty: the M field is still mandatory
 	err := errors.New(string(msg))
 	var sev, code, hint, detail, constraint, file, fn, line []byte
 	hasSrc := false
@@ -102,8 +102,8 @@ func VerifH17() {
 			detail = vSymTextL(2, true)
 			err = psqlerr.WithDetail(err, string(detail))
 		case 5:
-			file = vSymTextL(1, false)
-			fn = vSymTextL(1, false)
+			file = vSymTextL(1, true) // a source location may name no file or no function:
+			fn = vSymTextL(1, true)   // it was set all the same, so F, L and R are all sent
 			nd := 1 + vChoose(3)
 			line = nondetBytes(nd)
 			ln := int32(0)
@@ -155,12 +155,26 @@ func VerifH17() {
 	}
 	expect("severity", 'S', sev, "ERROR")
 	expect("sqlstate", 'C', code, string(codes.Uncategorized))
-	expect("message", 'M', msg, "")
+	always := func(label string, fcode byte, want []byte) {
+		got, present := vErrField(m.body, fcode)
+		vAssert(label+"-present", present)
+		vAssert(label+"-value", vEqBytes(got, want))
+	}
+	always("message", 'M', msg)
+	if len(msg) == 0 {
+		vReach("empty-message")
+	}
 	expect("hint", 'H', hint, "")
 	expect("detail", 'D', detail, "")
-	expect("file", 'F', file, "")
-	expect("line", 'L', line, "")
-	expect("function", 'R', fn, "")
+	if hasSrc {
+		always("file", 'F', file)
+		always("line", 'L', line)
+		always("function", 'R', fn)
+	} else {
+		expect("file", 'F', nil, "")
+		expect("line", 'L', nil, "")
+		expect("function", 'R', nil, "")
+	}
 	vAssertKexpect("constraint", m.body, 'n', constraint)
 	if hasSrc {
 		vReach("source-decorated")
@@ -201,4 +215,55 @@ func VerifH17n() {
 	vAssert("nil-code-internal", string(c) == string(codes.Internal))
 	vAssert("nil-message-nonempty", len(t) > 0)
 	vReach("nil-error")
+}
+
+// ---------------------------------------------------------------------------
+// H17m — decorating never changes the error it is given (C17: "any nesting",
+// so an inner error keeps being a value of its own; also what C15 relies on
+// when handlers share error values). For every decorator X with symbolic
+// payloads a, b: inner = X(base, a), outer = X(inner, b) — the outer carries b,
+// the inner still carries a, and the inner's text is unchanged.
+// ---------------------------------------------------------------------------
+func VerifH17m() {
+	a, b := vSymText0(2), vSymText0(2)
+	base := errors.New("base")
+	switch vChoose(6) {
+	case 0:
+		inner := psqlerr.WithCode(base, codes.Code(string(a)))
+		outer := psqlerr.WithCode(inner, codes.Code(string(b)))
+		vAssert("outer-code", vEqStr(string(psqlerr.GetCode(outer)), string(b)) || len(b) == 0)
+		vAssert("inner-code-unchanged", vEqStr(string(psqlerr.GetCode(inner)), string(a)) || len(a) == 0)
+		vAssert("inner-text", inner.Error() == "base")
+	case 1:
+		inner := psqlerr.WithSeverity(base, psqlerr.Severity(string(a)))
+		outer := psqlerr.WithSeverity(inner, psqlerr.Severity(string(b)))
+		vAssert("outer-severity", vEqStr(string(psqlerr.GetSeverity(outer)), string(b)) || len(b) == 0)
+		vAssert("inner-severity-unchanged", vEqStr(string(psqlerr.GetSeverity(inner)), string(a)) || len(a) == 0)
+	case 2:
+		inner := psqlerr.WithHint(base, string(a))
+		outer := psqlerr.WithHint(inner, string(b))
+		vAssert("outer-hint", vEqStr(psqlerr.GetHint(outer), string(b)))
+		vAssert("inner-hint-unchanged", vEqStr(psqlerr.GetHint(inner), string(a)))
+	case 3:
+		inner := psqlerr.WithDetail(base, string(a))
+		outer := psqlerr.WithDetail(inner, string(b))
+		vAssert("outer-detail", vEqStr(psqlerr.GetDetail(outer), string(b)))
+		vAssert("inner-detail-unchanged", vEqStr(psqlerr.GetDetail(inner), string(a)))
+		vReach("detail-twice")
+	case 4:
+		inner := psqlerr.WithConstraintName(base, string(a))
+		outer := psqlerr.WithConstraintName(inner, string(b))
+		vAssert("outer-constraint", vEqStr(psqlerr.GetConstraintName(outer), string(b)))
+		vAssert("inner-constraint-unchanged", vEqStr(psqlerr.GetConstraintName(inner), string(a)))
+	default:
+		la, lb := int32(nondetU32()), int32(nondetU32())
+		inner := psqlerr.WithSource(base, string(a), la, string(a))
+		outer := psqlerr.WithSource(inner, string(b), lb, string(b))
+		so, si := psqlerr.GetSource(outer), psqlerr.GetSource(inner)
+		vAssert("sources-present", so != nil && si != nil)
+		if so != nil && si != nil {
+			vAssert("outer-source", vEqStr(so.File, string(b)) && so.Line == lb && vEqStr(so.Function, string(b)))
+			vAssert("inner-source-unchanged", vEqStr(si.File, string(a)) && si.Line == la && vEqStr(si.Function, string(a)))
+		}
+	}
 }
